@@ -19,8 +19,8 @@ GEN_DEPTH = {
 
 MODULE_OF = {"MC_auth": "MC_auth.tla", "MC_noauth": "MC_auth.tla", "GEN_auth": "MC_auth.tla", "GEN_noauth": "MC_auth.tla",
              "MC_nonce": "Nonce.tla", "GEN_nonce": "Nonce.tla"}
-for _n in ("framer", "bindreply"):
-    MODULE_OF["MC_" + _n] = MODULE_OF["GEN_" + _n] = "Framer.tla"
+for _n in ("framer", "bindreply", "codec"):
+    MODULE_OF["MC_" + _n] = MODULE_OF["GEN_" + _n] = "Codec.tla" if _n == "codec" else "Framer.tla"
     MC_DEPTH["MC_" + _n] = None
     GEN_DEPTH["GEN_" + _n] = None
 for _n in ("ltcred", "relaygenA", "relaygenTop", "relaygenOne", "relaygenWide"):
@@ -31,7 +31,7 @@ MC_DEPTH.update({"MC_auth": (5, 7), "MC_noauth": (3, 4), "MC_nonce": None})
 GEN_DEPTH.update({"GEN_auth": (4, 5), "GEN_noauth": (2, 3), "GEN_nonce": None})
 
 
-NO_SIM = {"GEN_bindreply", "GEN_nonce", "GEN_noauth", "GEN_mtu", "GEN_mtu1200", "GEN_ltcred", "GEN_relaygenOne", "GEN_relaygenTop"}
+NO_SIM = {"GEN_bindreply", "GEN_codec", "GEN_nonce", "GEN_noauth", "GEN_mtu", "GEN_mtu1200", "GEN_ltcred", "GEN_relaygenOne", "GEN_relaygenTop"}
 
 
 def depth(table, name, t):
@@ -110,6 +110,13 @@ PROPS = {
                              "(ChannelData lengths 0,1,3,4,5,8,100,65531..65535 with numbers 0x4000/0x4001/0x5000/0x6000/0x7FFF, STUN lengths 0,4,8,100,65512,65516,65532, junk)",
                              "segmentations: byte-sized cuts within 24 bytes after a frame start and 12 before its end, and cuts at end-1/end/end+1/+4/+9/+20 of the current frame and of the stream",
                              "the reader uses one 70000-byte buffer for all calls, as Server.readLoop does; bytes of every returned frame are compared"]),
+    "C11": dict(title="wire codecs round-trip and reject malformed input", level="model_checking",
+                run=core_run(["MC_codec"], ["GEN_codec"]),
+                assumptions=["a pure function: the spec is a decision table (Codec.tla) whose 5226 cases TLC enumerates and checks against the statements of C11; "
+                             "payload and raw bytes inside a case are concretised from the seed",
+                             "all 65536 channel numbers are swept against the spec's ValidChan set; payload lengths are the classes 0..8, 1499, 1500, 65532, 65533, 65535; "
+                             "raw attribute values of every size 0..64 in six fill classes for each of the eleven attributes",
+                             "XOR address arithmetic itself lives in pion/stun and is only exercised, not specified"]),
     "C17": dict(title="time-windowed credentials validate iff authentic and unexpired", level="model_checking",
                 run=core_run(["MC_ltcred"], ["GEN_ltcred"]),
                 assumptions=["HMAC-SHA1 / MD5 treated as uninterpreted injective functions (LtCred.tla)",
